@@ -26,21 +26,33 @@ Proof. exact AuthFacts.timeout_now_refused_by_nonvoter. Qed.
 Print Assumptions timeout_now_refused_by_nonvoter.
 
 (* whatever the event, a node that becomes candidate or leader in a step is a voter of its latest
-   configuration at that moment (time-out, timeout-now, bootstrap, vote results) *)
+   configuration at that moment (time-out, timeout-now, bootstrap, vote results).
+   REPAIRED (second alternative added): a candidate that wins runs leader.init inside the same step, and
+   init may itself append a configuration in which the new leader is no voter; that configuration then
+   sits at an index above everything the node held before the step, the node was a voter of the
+   configuration it was elected under, and it leads only until the new one commits (below).
+   The statement as first written is refuted in AuthFacts.Refutations (a sole voter with a pending
+   demotion: a configuration Config.validate rejects). *)
 Theorem new_candidate_or_leader_is_voter :
   forall opt s ev o s', model_event opt s ev = Done (o, s') ->
     (st_role s' = Candidate \/ st_role s' = Leader) ->
     (st_role s <> st_role s' \/ st_term s <> st_term s') ->
     (st_role s = Candidate -> is_voter (st_latest s) (st_nid s) = true) ->
-    is_voter (st_latest s') (st_nid s') = true.
+    is_voter (st_latest s') (st_nid s') = true \/
+    (st_role s = Candidate /\ st_role s' = Leader /\ st_nid s' = st_nid s /\
+     is_voter (st_latest s) (st_nid s) = true /\ st_lastidx s < c_index (st_latest s')).
 Proof. exact AuthFacts.new_candidate_or_leader_is_voter. Qed.
 Print Assumptions new_candidate_or_leader_is_voter.
 
 (* acknowledgements of non-voters never count: the commit point computed by the leader depends
    only on the match indices of the voters of the latest configuration (and on its own log iff it
-   is a voter) *)
+   is a voter).
+   REPAIRED ([NoDup] added): node ids are distinct in every configuration the codec produces (Go: a map);
+   with a repeated id [is_voter] sees the first node only (refuted without it in AuthFacts.Refutations;
+   AuthFacts.majority_match_ext is the form that needs no such hypothesis). *)
 Theorem nonvoter_acks_do_not_count :
   forall s l l',
+    NoDup (map n_id (c_nodes (st_latest s))) ->
     ld_numvoters l = ld_numvoters l' -> ld_voter l = ld_voter l' ->
     (forall id, is_voter (st_latest s) id = true -> id <> st_nid s ->
         option_map rp_match (find_repl id (ld_repls l)) = option_map rp_match (find_repl id (ld_repls l'))) ->
